@@ -19,6 +19,19 @@ PARTIAL = [
 ]
 
 
+def _shrink(rng, d):
+    """small-scale geometry (seeded change r5-C02-m1: an absolute 'is it zero' tolerance in vector_normalize refuses regular
+    but tiny tangents / normals): with probability .4 all spatial coordinates are multiplied by 2^-k, k = 10..26"""
+    if rng.random() >= .4:
+        return d
+    f = F(1, 2 ** rng.randint(10, 26))
+    dim = d['dim']
+    e = dict(d)
+    e['P'] = [[x * f if i < dim else x for i, x in enumerate(pt)] for pt in d['P']]
+    G.count('tangent-scale', 'small')
+    return e
+
+
 def gen(rng, tier):
     out = []
     n = 150 if tier == 'quick' else 2200
@@ -87,7 +100,7 @@ def gen(rng, tier):
                 line = None if d['rat'] else "hodos %d %s" % (1 if norm else 0, S.args(d)[2:])
                 out.append(Case('hodograph-surface', line, dict(shape=d, u=u, v=v)))
             else:
-                out.append(Case('tangent-normal', None, dict(shape=d, u=u, v=v)))
+                out.append(Case('tangent-normal', None, dict(shape=_shrink(rng, d), u=u, v=v)))
     # hodograph surfaces of shapes without C0 knots (those hit the recorded finding F-02b), tangents of
     # curves, list variants of tangent / normal
     k = 0
@@ -102,7 +115,7 @@ def gen(rng, tier):
     for _ in range(16 if tier == 'quick' else 200):
         d = S.rand_curve(rng, maxp=5)
         us = [S.rand_params(rng, d)[0] for _ in range(rng.randint(1, 3))]
-        out.append(Case('tangent-curve', None, dict(shape=d, us=us)))
+        out.append(Case('tangent-curve', None, dict(shape=_shrink(rng, d), us=us)))
     for _ in range(10 if tier == 'quick' else 120):
         d = S.rand_surface(rng, maxp=3, max_interior=2)
         uvs = [S.rand_params(rng, d) for _ in range(rng.randint(2, 3))]
